@@ -413,7 +413,8 @@ let () = handlers := storage_handlers @ (List.filter (fun (n, _) -> n <> "cfg") 
 
 
 (* ---------- hierarchy of combined filters ---------- *)
-let hier_st : chier ref = ref (ch_new (nat_of_int 2))
+(* the direct hierarchy stream runs on the instance lifted to filterless children (Filter/CombinedOpt.v) *)
+let hier_st : ohier ref = ref (oh_new (nat_of_int 2))
 let hier_pushed = ref 0
 let describe_cf k (o : combined option) =
   match o with
@@ -430,31 +431,35 @@ let cmd_hier args =
   let kn = n_of_int k in
   let present c = (match List.nth_opt !hier_st.h_children c with Some (Some _) -> true | _ -> false) in
   match args with
-  | ["new"; g] -> hier_st := ch_new (nat_of_int (int_of_string g)); hier_pushed := 0; emit "hier new"
+  | ["new"; g] -> hier_st := oh_new (nat_of_int (int_of_string g)); hier_pushed := 0; emit "hier new"
   | ["push"; cfg; hashers; bits; keys] ->
     let bloom = if cfg = "none" then None else Some (bloom_new (n_of_string bits) (n_of_string hashers) (bytes_of_hex cfg)) in
     let ks = if keys = "-" then [] else List.map n_of_hex (String.split_on_char ',' keys) in
     let f = List.fold_left (fun f key -> cf_add bloom_hash (ckey_bytes kn) f key) (cf_new bloom) ks in
     let id = List.length !hier_st.h_children in
-    hier_st := ch_step kn !hier_st (HPush f);
+    hier_st := oh_step !hier_st (HPush (Some f));
+    emit ("hier push " ^ string_of_int id)
+  | ["pushnone"] ->
+    let id = List.length !hier_st.h_children in
+    hier_st := oh_step !hier_st (HPush None);
     emit ("hier push " ^ string_of_int id)
   | ["pop"] ->
     let any = List.exists (fun x -> x <> None) !hier_st.h_children in
-    hier_st := ch_step kn !hier_st HPop; emit ("hier pop " ^ (if any then "some" else "none"))
+    hier_st := oh_step !hier_st HPop; emit ("hier pop " ^ (if any then "some" else "none"))
   | ["remove"; i] ->
     let i = int_of_string i in
     let was = present i in
-    hier_st := ch_step kn !hier_st (HRemove (nat_of_int i)); emit ("hier remove " ^ (if was then "some" else "none"))
+    hier_st := oh_step !hier_st (HRemove (nat_of_int i)); emit ("hier remove " ^ (if was then "some" else "none"))
   | ["offload"; needed; level] ->
     let n = if needed = "max" then n_of_hex "ffffffffffffffff" else n_of_string needed in
-    let (h, freed) = ch_offload !hier_st n (nat_of_int (int_of_string level)) in
+    let (h, freed) = oh_offload !hier_st n (nat_of_int (int_of_string level)) in
     hier_st := h; emit ("hier offload " ^ dec_of_n freed)
-  | ["iter"; key] -> emit ("hier iter " ^ ids_str (ch_iter kn !hier_st (n_of_hex key)))
-  | ["iterrev"; key] -> emit ("hier iterrev " ^ ids_str (List.rev (ch_iter kn !hier_st (n_of_hex key))))
-  | ["fast"; key] -> emit ("hier fast " ^ (if ch_iter kn !hier_st (n_of_hex key) = [] then "No" else "Maybe"))
-  | ["check"; key] -> emit ("hier check " ^ (if ch_check kn !hier_st (n_of_hex key) then "Maybe" else "No"))
-  | ["root"] -> emit ("hier root " ^ describe_cf k !hier_st.h_root_filter)
-  | ["mem"] -> emit ("hier mem " ^ dec_of_n (ch_mem !hier_st))
+  | ["iter"; key] -> emit ("hier iter " ^ ids_str (oh_iter kn !hier_st (n_of_hex key)))
+  | ["iterrev"; key] -> emit ("hier iterrev " ^ ids_str (List.rev (oh_iter kn !hier_st (n_of_hex key))))
+  | ["fast"; key] -> emit ("hier fast " ^ (if oh_iter kn !hier_st (n_of_hex key) = [] then "No" else "Maybe"))
+  | ["check"; key] -> emit ("hier check " ^ (if oh_check kn !hier_st (n_of_hex key) then "Maybe" else "No"))
+  | ["root"] -> emit ("hier root " ^ describe_cf k (match !hier_st.h_root_filter with Some (Some f) -> Some f | _ -> None))
+  | ["mem"] -> emit ("hier mem " ^ dec_of_n (oh_mem !hier_st))
   | ["len"] ->
     let ch = !hier_st.h_children in
     let last = List.fold_left (fun (i, acc) x -> (i + 1, if x <> None then Some i else acc)) (0, None) ch |> snd in
